@@ -8,7 +8,8 @@ pid = 'C09'
 gen_modules = ['tr_state', 'tr_validators', 'tr_has_patcher', 'tr_contracts', 'tr_decorators', 'tr_pin_contracts', 'tr_attach', 'tr_rest_validators', 'tr_rest_patcher', 'tr_rest_state', 'tr_rest_contractsconst', 'tr_rest_decorators']
 model_targets = ['Sem/ScnObj.v']
 hand_modelled = ['coq/Sem/ObjModel.v: attach / attach_has / _ensure_wrapped / update_wrapper / chain / foreign decorators on a heap of function '
-                 'objects (hand-written; the source text of these functions is pinned by tools/py2coq/tr_objmodel.py)']
+                 'objects (hand-written; the source text of these functions is pinned by tools/py2coq/tr_objmodel.py); attach / attach_has are also '
+                 'regenerated as instruction lists (Gen/Attach.v) and proved equal to the model (Thm/C09/AttachRefine.v; semantics coq/Sem/AttachCode.v)']
 explanation = ('Theorems on the object-graph model: the registry reached by any sequence of decoration steps holds exactly the applied contracts, per kind in '
                'application order, whatever the grouping; a wraps-style foreign layer starts a new registry and stays in the call chain. Correspondence + monitor '
                'over random stacks / chains / shared contract objects / foreign decorators.')
